@@ -171,6 +171,11 @@ def build_evis_query(db, contracts, consts, name):
     f = db['funcs'][name]
     c = contracts[name]
     T = db['types']
+    if c.level == 'L0':
+        # the leaf's booked-energy clause IS the ghost definition (L0_EPILOGUE: g_evis += E + 1.022 for a positron); without
+        # that epilogue the clause fails trivially -- a harness artefact that once surfaced as a violation of the unchanged
+        # tree in the thorough tier (DESIGN 9.11).  There is nothing to discharge for the leaf.
+        return None
     rep, inl, missing = closure(db, contracts, name)
     if missing:
         raise bx2c.Unsupported('%s calls unrendered %s' % (name, missing))
